@@ -3,6 +3,7 @@
 package eng
 
 import (
+	"flag"
 	"encoding/json"
 	"fmt"
 	"os"
@@ -33,6 +34,7 @@ type c08Scenario struct {
 	Calls  []c08Call `json:"calls,omitempty"`
 	Text   string    `json:"text,omitempty"` // alternatively: one program text (corpus)
 	Name   string    `json:"name,omitempty"`
+	Flags  []string  `json:"flags,omitempty"` // cli configurations: further command-line flags next to -sandbox
 }
 
 // scenarios name the canary by placeholder; each process has its own real canary inside the scratch directory
@@ -106,6 +108,16 @@ var c08ArgShapes = []string{
 	fmt.Sprintf("(hash file: %q) 1", canaryDir+"/new.txt"),
 	fmt.Sprintf("%q 1 2 3", canaryFile),
 	fmt.Sprintf("nil %q", canaryFile),
+	// decorated paths, commands and names: the conventions by which tools let a string stand for a file, a process or
+	// an environment variable (curl's @file, URLs, shell redirections and pipes, $NAME)
+	fmt.Sprintf("%q", "@"+canaryFile),
+	fmt.Sprintf("%q", "file://"+canaryFile),
+	fmt.Sprintf("%q", "<"+canaryFile),
+	fmt.Sprintf("%q %q", ">"+canaryDir+"/new.txt", "x"),
+	`"| echo pwned > ` + canaryDir + `/pwned"`,
+	fmt.Sprintf("%q", "$"+canaryEnv),
+	fmt.Sprintf("%q", "${"+canaryEnv+"}"),
+	fmt.Sprintf("(raw %q)", "@"+canaryFile),
 }
 
 var c08Routes = []string{"direct", "alias", "apply", "map", "eval", "macro", "infix", "thread", "dot"}
@@ -168,7 +180,7 @@ func denyAll(op string, args []string) bool { return false }
 // runCliSandbox: the command-line tool's own sandbox mode, in process: ReplMain -sandbox -no-liner -quiet with the
 // script on stdin (REPL lines, dot-commands included) or given with -c. Returns whether os.Exit was reached with a
 // status (the tool's normal way out, not a script's doing).
-func runCliSandbox(text string, viaC bool) {
+func runCliSandbox(text string, viaC bool, extra []string) {
 	exe, _ := os.Executable()
 	tmp := filepath.Join(filepath.Dir(exe), fmt.Sprintf("c08cli-%d", os.Getpid()))
 	os.MkdirAll(tmp, 0755)
@@ -176,6 +188,9 @@ func runCliSandbox(text string, viaC bool) {
 	cfg := zygo.NewZlispConfig("zygo")
 	cfg.DefineFlags()
 	args := []string{"-no-liner", "-quiet", "-sandbox"}
+	for _, f := range extra {
+		args = append(args, "-"+f)
+	}
 	stdin := text
 	if viaC {
 		args = append(args, "-c", text)
@@ -241,7 +256,7 @@ func execC08(body json.RawMessage) *kernel.Result {
 			if isCli {
 				kernel.SetBudget(100000)
 				defer kernel.SetBudget(-1)
-				runCliSandbox(text, sc.Config == "cli-c")
+				runCliSandbox(text, sc.Config == "cli-c", sc.Flags)
 				return
 			}
 			o := zy.Eval(env, text+" ", 100000)
@@ -458,6 +473,86 @@ func genC08Sigils(r *kernel.RNG, tier string, i int) interface{} {
 	return sc
 }
 
+// cliBoolFlags: the tool's boolean switches, read from its own flag set (a new switch is picked up by itself).
+// -trace is left out (it prints every instruction), the three fixed ones are always given.
+func cliBoolFlags() []string {
+	cfg := zygo.NewZlispConfig("zygo")
+	cfg.DefineFlags()
+	var out []string
+	cfg.Flags.VisitAll(func(f *flag.Flag) {
+		if b, isBool := f.Value.(interface{ IsBoolFlag() bool }); !isBool || !b.IsBoolFlag() {
+			return
+		}
+		switch f.Name {
+		case "sandbox", "no-liner", "quiet", "trace":
+			return
+		}
+		out = append(out, f.Name)
+	})
+	sort.Strings(out)
+	return out
+}
+
+// cliUniverse: the names bound in the interpreter that ReplMain -sandbox builds under the given further flags,
+// read through the guarded hook before the tool evaluates anything
+var cliUniverseCache = map[string][]string{}
+
+func cliUniverse(extra []string) []string {
+	key := strings.Join(extra, ",")
+	if u, ok := cliUniverseCache[key]; ok {
+		return u
+	}
+	set := map[string]bool{}
+	zygo.VerifReplEnvHook = func(env *zygo.Zlisp) {
+		for _, n := range env.VerifGlobalNames() {
+			set[n] = true
+		}
+		for _, n := range env.VerifBuiltinNames() {
+			set[n] = true
+		}
+		for _, n := range env.VerifMacroNames() {
+			set[n] = true
+		}
+	}
+	func() {
+		defer func() { recover() }()
+		savedPolicy := verifos.Policy
+		verifos.Policy = denyAll
+		defer func() { verifos.Policy = savedPolicy }()
+		runCliSandbox("1", true, extra)
+	}()
+	zygo.VerifReplEnvHook = nil
+	var out []string
+	for n := range set {
+		if n == "" || c08Skip[n] || strings.ContainsAny(n, " ()[]{}\"`;") {
+			continue
+		}
+		out = append(out, n)
+	}
+	sort.Strings(out)
+	cliUniverseCache[key] = out
+	return out
+}
+
+// cliFlagSets: every subset of the boolean switches (a handful)
+func cliFlagSets() [][]string {
+	fl := cliBoolFlags()
+	if len(fl) > 6 {
+		fl = fl[:6]
+	}
+	var out [][]string
+	for m := 0; m < 1<<len(fl); m++ {
+		var s []string
+		for i, f := range fl {
+			if m&(1<<i) != 0 {
+				s = append(s, f)
+			}
+		}
+		out = append(out, s)
+	}
+	return out
+}
+
 var c08DotCommands = []string{".cd @CANARYDIR@", ".cd /", ".dump", ".dump car", ".ls", ".gls", ".verb", ".debug", ".undebug", ".quit", ".cd", ".help"}
 
 // genC08Cli: lines for the tool's sandbox REPL: its dot-commands, outside-world names with canary arguments, restricted names
@@ -468,9 +563,31 @@ func genC08Cli(r *kernel.RNG, tier string, i int) interface{} {
 	}
 	names := nameUniverse("std")
 	restricted := restrictedNames()
+	sets := cliFlagSets()
+	flags := sets[(i/3)%len(sets)]
+	// what this flag set binds beyond the plain sandbox with the standard setup
+	// (relative to what the sandbox itself binds, not to the wider universe that also holds the restricted names)
+	base := map[string]bool{}
+	for _, n := range cliUniverse(nil) {
+		base[n] = true
+	}
+	var extraNames []string
+	for _, n := range cliUniverse(flags) {
+		if !base[n] {
+			extraNames = append(extraNames, n)
+		}
+	}
 	var lines []string
+	next := i * 7 // walks the extra names round and round across scenarios
 	for j := 0; j < 12; j++ {
-		switch r.Intn(5) {
+		k := r.Intn(5)
+		if len(extraNames) > 0 && r.Chance(0.6) {
+			k = 5
+		}
+		switch k {
+		case 5:
+			lines = append(lines, "("+extraNames[next%len(extraNames)]+" "+r.Pick(c08ArgShapes)+")")
+			next++
 		case 0:
 			lines = append(lines, r.Pick(c08DotCommands))
 		case 1:
@@ -483,7 +600,7 @@ func genC08Cli(r *kernel.RNG, tier string, i int) interface{} {
 			lines = append(lines, "(+ 1 2)")
 		}
 	}
-	sc := &c08Scenario{Config: cfg, Name: "cli-lines"}
+	sc := &c08Scenario{Config: cfg, Name: "cli-lines", Flags: flags}
 	if cfg == "cli-c" {
 		sc.Text = strings.Join(lines, " ")
 	} else {
@@ -574,6 +691,11 @@ func init() {
 			nameUniverse(c)
 		}
 		restrictedNames()
+	})
+	kernel.RegisterWarmupFor("C08", func() {
+		for _, fs := range cliFlagSets() {
+			cliUniverse(fs)
+		}
 	})
 	kernel.Register(&kernel.Plan{
 		Property: "C08",
